@@ -14,7 +14,9 @@ Inductive prog :=
 | PCompile (p : prog)                    (* FlatEx::compile *)
 | PBin (name : str) (p q : prog)         (* Calculate::operate_binary *)
 | PUn (name : str) (p : prog)            (* Calculate::operate_unary *)
-| PSubs (p : prog) (m : list (str * prog)).   (* Calculate::subs *)
+| PSubs (p : prog) (m : list (str * prog))    (* Calculate::subs *)
+| PReFlat (p : prog)                     (* FlatEx::parse(p.unparse()) *)
+| PReDeep (p : prog).                    (* DeepEx::parse(p.unparse()) *)
 
 Inductive query :=
 | QVars                                   (* var_names() *)
@@ -38,9 +40,12 @@ Let islit := is_numeric_text.
 Definition as_deep (e : expr) : res (deepex term) :=
   match e with ED d => Ok d | EF f => to_deepex C tb true f end.
 Definition as_flat (e : expr) : res (flatex term) :=
-  match e with EF f => Ok f | ED d => from_deepex true d end.
+  match e with EF f => Ok f | ED d => from_deepex C tb true d end.
 Definition like (e : expr) (d : deepex term) : res expr :=
-  match e with EF _ => do f <- from_deepex true d; Ok (EF f) | ED _ => Ok (ED d) end.
+  match e with EF _ => do f <- from_deepex C tb true d; Ok (EF f) | ED _ => Ok (ED d) end.
+
+Definition text_of (e : expr) : res str :=
+  match e with EF f => Ok (ftext f) | ED d => match unparse C tb d with Some s => Ok s | None => Panic 144 end end.
 
 Fixpoint run (p : prog) : res expr :=
   match p with
@@ -48,7 +53,7 @@ Fixpoint run (p : prog) : res expr :=
   | PFlatWo s => do f <- parse_wo_compile C tb true islit s; Ok (EF f)
   | PDeep s => do d <- parse_deep C tb islit s; Ok (ED d)
   | PToDeep p => do e <- run p; do d <- as_deep e; Ok (ED d)
-  | PToFlat p => do e <- run p; do d <- as_deep e; do f <- from_deepex true d; Ok (EF f)
+  | PToFlat p => do e <- run p; do d <- as_deep e; do f <- from_deepex C tb true d; Ok (EF f)
   | PCompile p => do e <- run p; match e with EF f => do f' <- compile C true f; Ok (EF f') | ED d => Ok (ED d) end
   | PBin name p q =>
       do a <- run p; do b <- run q;
@@ -79,6 +84,8 @@ Fixpoint run (p : prog) : res expr :=
       do da <- as_deep a;
       let sub := fun x => match find (fun xd => str_eqb (fst xd) x) m' with Some xd => snd xd | None => None end in
       do r <- subs C sub da; like a r
+  | PReFlat p => do e <- run p; do t <- text_of e; do f <- parse C tb true islit t; Ok (EF f)
+  | PReDeep p => do e <- run p; do t <- text_of e; do d <- parse_deep C tb islit t; Ok (ED d)
   end.
 
 Definition symvals (n : nat) : list term := map V (seq 0 n).
@@ -96,7 +103,7 @@ Definition answer (e : expr) (q : query) : obs :=
   | QEvalVec n, EF f => of_res (fun vc => OTC (fst vc) (map N.of_nat (snd vc))) (eval_consuming C f (symvals n))
   | QEvalVec n, ED d => OSkip
   | QUnparse, ED d => match unparse C tb d with Some s => OStr s | None => OP end
-  | QUnparse, EF f => OSkip
+  | QUnparse, EF f => OStr (ftext f)
   | QBinReprs, EF f => OS (f_binary_reprs tb f)
   | QBinReprs, ED d => OS (d_binary_reprs tb d)
   | QUnReprs, EF f => OS (f_unary_reprs tb f)
